@@ -49,12 +49,24 @@ class Prop:
         self.pid = pid; self.title = title; self._suites = suites; self._monitor = monitor
         self.TRUSTED_BASE = _base.STD_TRUSTED + trusted
         self.ASSUMPTIONS = assumptions; self.RULE = rule; self._replay = replay; self._extra = extra_obl or []
+        self._worker = getattr(monitor, "worker", None); self._payload = getattr(monitor, "payload", None)
 
     def suites(self, ctx):
         return run_suites(self._suites, ctx["tier"], self.pid)
 
     def monitor(self, ctx):
         return self._monitor(ctx)
+
+    def directed(self, ctx, broken_suites):
+        """second, focused search after a correspondence broke and the ordinary monitor found nothing"""
+        n_each = 25 if ctx["tier"] == "quick" else 150
+        cfgs = focus_configs(self.pid, broken_suites, n_each)
+        if not cfgs:
+            return {"violations": [], "coverage": {"evaluations": 0}}
+        if self._worker is None:
+            return _base.trace_monitor(self.pid, cfgs)
+        pl = [self._payload(c, i) if self._payload else {"cfg": c} for i, c in enumerate(cfgs)]
+        return _base.run_monitor(self._worker, pl, timeout=600)
 
     def replay(self, data):
         if self._replay:
@@ -63,6 +75,37 @@ class Prop:
 
     def extra_obligations(self, ctx):
         return list(self._extra)
+
+
+# when a correspondence suite disagrees and the ordinary monitor finds no failing input, the search is repeated on
+# configurations that reach the code the disagreeing suite ties (DESIGN.md 7.1 "directed search")
+FOCUS = {
+    "infiltration": [dict(bunds=True, off_season=True, seasons=2, fallow_field=None, soil_type=lambda r: r.choice(["Paddy", "Clay", "custom"])),
+                     dict(bunds=lambda r: r.random() < 0.5, soil_type=lambda r: r.choice(["Paddy", "custom", "ac_TunisLocal"]), method=lambda r: r.choice([1, 2, 5]))],
+    "drainage": [dict(soil_type=lambda r: r.choice(["custom", "Paddy", "ac_TunisLocal"]))],
+    "gw": [dict(gw=True, soil_type=lambda r: r.choice(["ac_TunisLocal", "custom", "Paddy", "Loam"]))],
+    "rainirr": [dict(method=lambda r: r.choice([1, 2, 3, 5])), dict(bunds=False)],
+    "evap": [dict(mulches=True, method=lambda r: r.choice([1, 2, 5])), dict(bunds=True)],
+    "transp": [dict(method=4, soil_type="custom"), dict(bunds=True, soil_type="Paddy")],
+    "roots": [dict(gw=True), dict(method=4), dict(strict=False, soil_type="custom")],
+    "canopy": [dict(strict=False)],
+    "yield": [dict(method=lambda r: r.choice([0, 4]))],
+    "kernels": [dict(crop_kwargs={"GDDmethod": 2}), dict(crop_kwargs={"GDDmethod": 1})],
+    "inputs": [dict(method=3), dict(gw=True)],
+    "clock": [dict(off_season=True, seasons=3), dict(off_season=False, seasons=3)],
+    "day": [dict(off_season=True), dict(method=4)],
+    "dayc": [dict(off_season=True), dict(method=4)],
+    "calendar": [dict(start_mode="after"), dict(start_mode="before", end_mode="mid")],
+    "soilinit": [dict(soil_type="custom", strict=False), dict(soil_type="texture")],
+}
+
+
+def focus_configs(pid, broken_suites, n_each):
+    cfgs = []
+    for sname in broken_suites:
+        for j, force in enumerate(FOCUS.get(sname, [dict()])):
+            cfgs += _base.draw_configs("%s-focus-%s-%d" % (pid, sname, j), n_each, **force)
+    return cfgs
 
 
 def trace_mon(pid, nq, nt, **force):
@@ -78,6 +121,7 @@ def worker_mon(pid, worker, nq, nt, payload=None, timeout=600, **force):
         cfgs = _base.draw_configs(pid, n, **force)
         pl = [payload(c, i) if payload else {"cfg": c} for i, c in enumerate(cfgs)]
         return _base.run_monitor(worker, pl, timeout=timeout)
+    f.worker = worker; f.payload = payload
     return f
 
 
